@@ -312,6 +312,19 @@ class Extractor:
         self.log('R1', sf.rel, R.line_of(sf.text, it.head_start), 'const %s: byte string of %d bytes re-spelled as array literal' % (mt.group(2), len(data)))
         return 'pub const %s: &\'static [u8; %d] = &[%s];' % (mt.group(2), len(data), arr)
 
+    def r1b_const_slice(self, text, sf, it):
+        """R1b: `const X: &[T] = &[a, b, ..];` -> `const X: &'static [T; n] = &[a, b, ..];`
+        (the elided lifetime of a const is 'static; the array length is the number of elements)."""
+        mt = re.match(r'(?s)(\s*(?:pub\s+)?const\s+\w+\s*:\s*)&\s*\[\s*([^;\]]+?)\s*\](\s*=\s*&\s*)\[', text)
+        if not mt:
+            return text
+        m = R.code_mask(text)
+        op = mt.end() - 1
+        cl = R.match_close(text, m, op)
+        elems = [e for e in split_top(text[op + 1:cl]) if e.strip()]
+        self.log('R1b', sf.rel, R.line_of(sf.text, it.head_start), 'const slice of %d elements typed as &\'static [T; %d]' % (len(elems), len(elems)))
+        return mt.group(1) + "&'static [" + mt.group(2) + '; %d]' % len(elems) + mt.group(3) + text[op:]
+
     def r11_asserts(self, text, rel, base_line):
         def repl(kind):
             def f(m):
@@ -370,6 +383,7 @@ class Extractor:
         text = self.vis_rewrite(text)
         if kind == 'const':
             text = self.r1_const(text, sf, it)
+            text = self.r1b_const_slice(text, sf, it)
             if not text.lstrip().startswith('pub'):
                 text = 'pub ' + text.lstrip()
         elif kind in ('struct', 'enum'):
